@@ -410,7 +410,19 @@ fn low_level_config(rng: &mut ChaCha8Rng, key: &impl SigningKey, typ: SignatureT
         KeyVersion::V6 => SignatureConfig::v6(&mut *rng, typ, key.algorithm(), hash).map_err(|e| e.to_string())?,
         v => return Err(format!("key version {v:?}")),
     };
-    let mut hashed = vec![Subpacket::regular(SubpacketData::SignatureCreationTime(Timestamp::now())).map_err(|e| e.to_string())?];
+    // the creation time is the caller's to choose: now, a fixed time of a reproducible build that lies
+    // before the key was made (1980, 2001), the second after the epoch, the epoch itself
+    static TIMES: std::sync::atomic::AtomicUsize = std::sync::atomic::AtomicUsize::new(0);
+    let tk = TIMES.fetch_add(1, std::sync::atomic::Ordering::Relaxed);
+    let when = match tk % 7 {
+        1 => Timestamp::from_secs(315_532_800),
+        3 => Timestamp::from_secs(1_000_000_000),
+        4 => Timestamp::from_secs(1),
+        5 => Timestamp::from_secs(key.created_at().as_secs().saturating_sub(1)),
+        6 => Timestamp::from_secs(0),
+        _ => Timestamp::now(),
+    };
+    let mut hashed = vec![Subpacket::regular(SubpacketData::SignatureCreationTime(when)).map_err(|e| e.to_string())?];
     if with_issuer {
         hashed.push(Subpacket::regular(SubpacketData::IssuerFingerprint(key.fingerprint())).map_err(|e| e.to_string())?);
     }
@@ -665,8 +677,16 @@ fn run_builder(env: &mut Env, signers: &[(&TestKey, HashAlgorithm)], text: bool,
                         let created = pgp::packet::Subpacket::regular(pgp::packet::SubpacketData::SignatureCreationTime(pgp::types::Timestamp::now()));
                         match created {
                             Ok(c) => {
+                                // ... and, every other time, without a creation time either (the builder
+                                // signs whatever hashed area the caller provides), or with one that lies
+                                // before the key was made
+                                let hashed = match (seed as usize / 3 + si) % 3 {
+                                    0 => vec![c],
+                                    1 => vec![],
+                                    _ => pgp::packet::Subpacket::regular(pgp::packet::SubpacketData::SignatureCreationTime(pgp::types::Timestamp::from_secs(1_000_000_000))).map(|x| vec![x]).unwrap_or_default(),
+                                };
                                 b.sign_with_subpackets(rs as &dyn SigningKey, Password::empty(), *h,
-                                    pgp::composed::SubpacketConfig::UserDefined { hashed: vec![c], unhashed: vec![] });
+                                    pgp::composed::SubpacketConfig::UserDefined { hashed, unhashed: vec![] });
                             }
                             Err(_) => {
                                 b.sign(rs as &dyn SigningKey, Password::empty(), *h);
